@@ -24,6 +24,7 @@ KEY_INFEASIBLE_TIME = 'trial-infeasible-end-time-ignored'
 KEY_UNIFORM = 'scale-type-uniform-discrete-not-on-wire'
 KEY_METRIC_ORDER = 'studyconfig-metrics-reordered-by-name'
 KEY_TRAILING_BS = 'ns-component-trailing-backslash'
+KEY_NO_PREDICTION = 'earlystop-decision-without-prediction'
 FLAG_KEYS = [('readNanos', KEY_NANOS), ('defaultHasField', KEY_DEFAULT),
              ('recurseBeforeCopy', KEY_DEPTH), ('infeasibleEndTime', KEY_INFEASIBLE_TIME)]
 
@@ -167,7 +168,8 @@ def canon_meas(m):
 
 
 def canon_pmeas(q):
-  return {'seconds': q.elapsed_duration.seconds, 'nanos': q.elapsed_duration.nanos, 'steps': q.step_count,
+  dur = {'s': q.elapsed_duration.seconds, 'n': q.elapsed_duration.nanos} if q.HasField('elapsed_duration') else None
+  return {'dur': dur, 'steps': q.step_count,
           'metrics': [[cps(x.metric_id), rat(x.value)] for x in q.metrics]}
 
 
@@ -189,6 +191,8 @@ def canon_mdval(v):
 def canon_md(md):
   out = []
   for ns, store in md._stores.items():   # pylint: disable=protected-access
+    if not store:
+      continue      # empty stores (the root store of every Metadata(), stores created by a read) are not observable
     out.append([[cps(c) for c in ns], [[cps(k), canon_mdval(v)] for k, v in store.items()]])
   return out
 
@@ -441,7 +445,7 @@ class Gen:
       kw['bounds'] = (float(lo), float(hi))
       kw['default_value'] = r.choice([None, None, 0.0, -0.0, lo, hi, 0.5])
     elif kind == 'integer':
-      lo = r.choice([-5, -1, 0, 0, 1, 3, 2**40, -2**62])
+      lo = r.choice([-5, -1, 0, 0, 1, 3, 2**40, -2**50])
       hi = lo + r.choice([0, 1, 2, 5, 10**6])
       kw['bounds'] = (lo, hi)
       kw['default_value'] = r.choice([None, None, 0, 0, lo, hi, 1])
@@ -799,6 +803,8 @@ def classify(kind, cx, flags):
     keys.append(KEY_UNIFORM)
   if kind == 'study' and metrics_unsorted(cx):
     keys.append(KEY_METRIC_ORDER)
+  if kind == 'esdec' and any(e['pred'] is None for e in cx['decisions']):
+    keys.append(KEY_NO_PREDICTION)
   if not flags['readNanos'] and has_frac_secs(cx):
     keys.append(KEY_NANOS)
   if not flags['defaultHasField'] and any(falsy_default(n) for p in pcs for n in pc_nodes(p)):
@@ -880,86 +886,94 @@ def identify_flags(c):
   return flags
 
 
-def run_cases(c, kind, objs, flags, stream, exact=True):
-  """to_proto / from_proto / to_proto on the real code; same values through the model; tie +
-  property.  `stream` names the generator stream for the evidence."""
-  to, frm, cpy, cproto = kinds()[kind]
-  cfg = [flags['readNanos'], flags['defaultHasField'], flags['recurseBeforeCopy'], flags['infeasibleEndTime']]
-  recs, reqs = [], []
-  for x in objs:
-    cx = cpy(x)
-    rec = {'kind': kind, 'cx': cx, 'x': x}
-    try:
-      p = to(x)
-    except Exception as e:   # pylint: disable=broad-except
-      rec['err'] = ('to_proto', e)
-      recs.append(rec)
-      continue
-    if cpy(x) != cx:
-      c.prop_fail('to_proto-mutates-input:' + kind, 'to_proto modified its argument', {'type': kind, 'x': cx, 'after': cpy(x)})
-    try:
-      back = frm(p)
-      p2 = to(back)
-    except Exception as e:   # pylint: disable=broad-except
-      rec['err'] = ('from_proto', e)
-      recs.append(rec)
-      continue
-    rec.update(cp=cproto(p), cb=cpy(back), cp2=cproto(p2), same_bytes=(ser(p) == ser(p2)), back=back)
-    recs.append(rec)
-    reqs.append({'op': kind, 'cfg': cfg, 'x': cx, 'back': rec['cb']})
-  model = c.lean('C09', reqs)
-  mi = iter(model)
-  for rec in recs:
-    cx = rec['cx']
-    cls = classify(kind, cx, flags)
-    feats = features(cx)
-    h = hashlib.sha1(json.dumps(cx, sort_keys=True).encode()).hexdigest()[:16]
-    c.count(1, (kind, h) if feats else None, kind='%s:%s' % (stream, kind))
-    for f in feats:
-      c.dist['feature:' + f] = c.dist.get('feature:' + f, 0) + 1
-    case = {'type': kind, 'stream': stream, 'x': cx}
-    if 'err' in rec:
-      where, e = rec['err']
-      key = cls[0] if cls and where == 'from_proto' and cls[0] == KEY_TRAILING_BS else '%s-raises:%s' % (where, kind)
-      c.prop_fail(key, '%s raised %s: %s' % (where, type(e).__name__, str(e)[:200]), case)
-      continue
-    c.traces += 1
-    m = next(mi)
-    if 'error' in m:
-      raise core.InfraError('driver C09: %s on %s' % (m['error'], json.dumps(cx)[:300]))
-    case.update(proto=rec['cp'], back=rec['cb'])
-    # ---- tie: the model run with the identified variant predicts the real code
-    tie_ok = True
-    if exact:
-      for nm, real, mod in (('to_proto', rec['cp'], m['proto']), ('from_proto', rec['cb'], m['back']),
-                            ('to_proto(from_proto(to_proto))', rec['cp2'], m['again'])):
-        if real != mod:
-          tie_ok = False
-          c.tie_break('%s.%s' % (kind, nm), {'type': kind, 'x': cx}, real, mod)
-          break
-    # ---- property on the real outputs: normal forms (Lean `norm`) agree, second conversion identical
-    rt_ok = m['norm_back'] == m['norm'] if exact else approx_equal(m['norm_back'], m['norm'])
-    idem_ok = rec['same_bytes'] or (not exact and approx_equal(rec['cp'], rec['cp2'], proto=True)) \
-        or (kind == 'esreq' and rec['cp'] == rec['cp2'])
-    if not exact and (not rt_ok or not idem_ok) and cls:
-      pass
-    if rt_ok and idem_ok:
-      # secondary oracle: the library's own equality, where it is meaningful
-      if kind in ('pc', 'metric') and not cls and rec['back'] != rec['x']:
-        c.tie_break('%s: python == differs although the canonical forms agree' % kind, {'type': kind, 'x': cx}, repr(rec['back'])[:300], repr(rec['x'])[:300])
-      continue
-    what = []
-    if not rt_ok:
-      what.append('from_proto(to_proto(x)) differs from x: %s' % first_diff(m['norm'], m['norm_back']))
-    if not idem_ok:
-      what.append('to_proto(from_proto(to_proto(x))) is not identical to to_proto(x): %s' % first_diff(rec['cp'], rec['cp2']))
-    if cls and (tie_ok or not exact):
-      key = cls[0]
-    elif cls:
-      key = cls[0] if cls[0] in (KEY_TRAILING_BS,) else 'unexplained:' + kind
-    else:
-      key = 'roundtrip:' + kind if not rt_ok else 'idempotence:' + kind
-    c.prop_fail(key, '%s %s' % (kind, '; '.join(what)), case)
+class Batch:
+  """Cases collected from all streams; the model is asked once for all of them."""
+
+  def __init__(self, c, flags):
+    self.c = c
+    self.flags = flags
+    self.recs = []
+
+  def add(self, kind, objs, stream, exact=True):
+    """to_proto / from_proto / to_proto on the real code for every object."""
+    c, flags = self.c, self.flags
+    to, frm, cpy, cproto = kinds()[kind]
+    cfg = [flags['readNanos'], flags['defaultHasField'], flags['recurseBeforeCopy'], flags['infeasibleEndTime']]
+    for x in objs:
+      cx = cpy(x)
+      rec = {'kind': kind, 'cx': cx, 'x': x, 'stream': stream, 'exact': exact}
+      self.recs.append(rec)
+      try:
+        p = to(x)
+      except Exception as e:   # pylint: disable=broad-except
+        rec['err'] = ('to_proto', e)
+        continue
+      if cpy(x) != cx:
+        c.prop_fail('to_proto-mutates-input:' + kind, 'to_proto modified its argument', {'type': kind, 'x': cx, 'after': cpy(x)})
+      try:
+        back = frm(p)
+        p2 = to(back)
+      except Exception as e:   # pylint: disable=broad-except
+        rec['err'] = ('from_proto', e)
+        continue
+      rec.update(cp=cproto(p), cb=cpy(back), cp2=cproto(p2), same_bytes=(ser(p) == ser(p2)), back=back)
+      rec['req'] = {'op': kind, 'cfg': cfg, 'x': cx, 'back': rec['cb']}
+
+  def evaluate(self):
+    """Same values through the model (one driver run); tie + property per case."""
+    c, flags = self.c, self.flags
+    model = c.lean('C09', [r['req'] for r in self.recs if 'req' in r])
+    mi = iter(model)
+    for rec in self.recs:
+      kind, cx, exact, stream = rec['kind'], rec['cx'], rec['exact'], rec['stream']
+      cls = classify(kind, cx, flags)
+      feats = features(cx)
+      h = hashlib.sha1(json.dumps(cx, sort_keys=True).encode()).hexdigest()[:16]
+      c.count(1, (kind, h) if feats else None, kind='%s:%s' % (stream, kind))
+      for f in feats:
+        c.dist['feature:' + f] = c.dist.get('feature:' + f, 0) + 1
+      case = {'type': kind, 'stream': stream, 'x': cx}
+      if 'err' in rec:
+        where, e = rec['err']
+        key = cls[0] if cls and where == 'from_proto' and cls[0] == KEY_TRAILING_BS else '%s-raises:%s' % (where, kind)
+        c.prop_fail(key, '%s %s raised %s: %s' % (kind, where, type(e).__name__, str(e)[:200]), case)
+        continue
+      c.traces += 1
+      m = next(mi)
+      if 'error' in m:
+        raise core.InfraError('driver C09: %s on %s' % (m['error'], json.dumps(cx)[:300]))
+      case.update(proto=rec['cp'], back=rec['cb'])
+      # ---- tie: the model run with the identified variant predicts the real code
+      tie_ok = True
+      if exact:
+        for nm, real, mod in (('to_proto', rec['cp'], m['proto']), ('from_proto', rec['cb'], m['back']),
+                              ('to_proto(from_proto(to_proto))', rec['cp2'], m['again'])):
+          if real != mod:
+            tie_ok = False
+            c.tie_break('%s.%s' % (kind, nm), {'type': kind, 'x': cx}, real, mod)
+            break
+      # ---- property on the real outputs: normal forms (Lean `norm`) agree, second conversion identical
+      rt_ok = m['norm_back'] == m['norm'] if exact else approx_equal(m['norm_back'], m['norm'])
+      idem_ok = rec['same_bytes'] or (not exact and approx_equal(rec['cp'], rec['cp2'], proto=True)) \
+          or (kind == 'esreq' and rec['cp'] == rec['cp2'])
+      if rt_ok and idem_ok:
+        # secondary oracle: the library's own equality, where it is meaningful
+        if kind in ('pc', 'metric') and not cls and rec['back'] != rec['x']:
+          c.tie_break('%s: python == differs although the canonical forms agree' % kind, {'type': kind, 'x': cx}, repr(rec['back'])[:300], repr(rec['x'])[:300])
+        continue
+      what = []
+      if not rt_ok:
+        what.append('from_proto(to_proto(x)) differs from x: %s' % first_diff(m['norm'], m['norm_back']))
+      if not idem_ok:
+        what.append('to_proto(from_proto(to_proto(x))) is not identical to to_proto(x): %s' % first_diff(rec['cp'], rec['cp2']))
+      if cls and (tie_ok or not exact or cls[0] == KEY_TRAILING_BS):
+        key = cls[0]          # explained: the model of the identified variant predicts exactly this
+      elif cls:
+        key = 'unexplained:' + kind
+      else:
+        key = 'roundtrip:' + kind if not rt_ok else 'idempotence:' + kind
+      c.prop_fail(key, '%s %s' % (kind, '; '.join(what)), case)
+    self.recs = []
 
 
 def first_diff(a, b, path=''):
@@ -986,11 +1000,8 @@ def approx_equal(a, b, proto=False):
   if isinstance(a, dict) and isinstance(b, dict):
     if set(a) != set(b):
       return False
-    if proto and 'seconds' in a and 'nanos' in a:
-      ta, tb = a['seconds'] * 10**9 + a['nanos'], b['seconds'] * 10**9 + b['nanos']
-      if abs(ta - tb) > 1:
-        return False
-      return all(approx_equal(a[k], b[k], proto) for k in a if k not in ('seconds', 'nanos'))
+    if proto and set(a) == {'s', 'n'}:
+      return abs((a['s'] * 10**9 + a['n']) - (b['s'] * 10**9 + b['n'])) <= 1
     for k in a:
       if k == 'elapsed' and not proto:
         x, y = Fraction(a[k]), Fraction(b[k])
@@ -1005,13 +1016,15 @@ def approx_equal(a, b, proto=False):
   return a == b
 
 
-def main_streams(c, flags):
+def main_streams(c, flags, scale=1):
   quick = c.tier == 'quick'
   n = {'pc': 420, 'meas': 260, 'trial': 320, 'md': 150, 'delta': 150, 'suggestion': 100, 'metric': 80,
        'problem': 80, 'study': 200, 'sreq': 40, 'sdec': 60, 'esreq': 40, 'esdec': 60}
-  if not quick:
-    n = {k: v * 12 for k, v in n.items()}
+  mult = (1 if quick else 12) * scale
+  n = {k: v * mult for k, v in n.items()}
+  side = (40 if quick else 300) * scale
   g = Gen(c.rng)
+  b = Batch(c, flags)
   corpus = corpus_objects()
   for kind in n:
     objs = list(corpus.get(kind, []))
@@ -1024,21 +1037,23 @@ def main_streams(c, flags):
         objs.append(g.study(sorted_names=True))
       else:
         objs.append(getattr(g, kind)())
-    run_cases(c, kind, objs, flags, 'main')
-    c.sample({kind: canon_small(kinds()[kind][2](objs[min(len(objs) - 1, len(corpus.get(kind, [])))]))})
+    b.add(kind, objs, 'main')
+    if scale == 1:
+      c.sample({kind: canon_small(kinds()[kind][2](objs[min(len(objs) - 1, len(corpus.get(kind, [])))]))}, limit=13)
   # ---- streams of the recorded findings (own keys)
   gk = Gen(c.rng, allow_uniform=True)
   objs = [V['pcfg'].ParameterConfig.factory('d', feasible_values=[1, 2, 3], scale_type=V['pcfg'].ScaleType.UNIFORM_DISCRETE)]
-  objs += [gk.pc(depth=i % 3) for i in range(40 if quick else 300)]
-  run_cases(c, 'pc', objs, flags, 'uniform-discrete')
-  run_cases(c, 'study', [gk.study(sorted_names=False) for _ in range(40 if quick else 300)], flags, 'unsorted-metrics')
+  objs += [gk.pc(depth=i % 3) for i in range(side)]
+  b.add('pc', objs, 'uniform-discrete')
+  b.add('study', [gk.study(sorted_names=False) for _ in range(side)], 'unsorted-metrics')
   gb = Gen(c.rng, allow_trailing_bs=True)
-  run_cases(c, 'md', [gb.md(big=True) for _ in range(40 if quick else 300)], flags, 'ns-trailing-backslash')
-  run_cases(c, 'trial', [gb.trial() for _ in range(20 if quick else 150)], flags, 'ns-trailing-backslash')
+  b.add('md', [gb.md(big=True) for _ in range(side)], 'ns-trailing-backslash')
+  b.add('trial', [gb.trial() for _ in range(side // 2)], 'ns-trailing-backslash')
   # ---- float stream: arbitrary doubles for elapsed seconds (property only, with tolerance)
   gf = Gen(c.rng, float_secs=True)
-  run_cases(c, 'meas', [gf.meas() for _ in range(300 if quick else 4000)], flags, 'float-secs', exact=False)
-  run_cases(c, 'trial', [gf.trial() for _ in range(100 if quick else 1200)], flags, 'float-secs', exact=False)
+  b.add('meas', [gf.meas() for _ in range((300 if quick else 4000) * scale)], 'float-secs', exact=False)
+  b.add('trial', [gf.trial() for _ in range((100 if quick else 1200) * scale)], 'float-secs', exact=False)
+  b.evaluate()
 
 
 def canon_small(j):
@@ -1138,7 +1153,7 @@ def run(c):
   time_sweep(c)
   extra_probes(c)
   return c.finish(
-      level='proof',
+      level='proof', search=lambda: main_streams(c, flags, scale=4),
       rule='an object counts as non-trivial when it has at least one of: fractional elapsed seconds, a falsy default/value '
            '(0, 0.0, "", False), a conditional tree of depth >= 1, a packed proto in metadata, a separator character '
            '(":", "\\", "[") or a non-ASCII character in a name; distinct = distinct canonical JSON',
